@@ -101,6 +101,7 @@ package tm
 //@   ensures decision-commit: role == Launcher && isSuccess ==> called("(*GlobalTransactionManager).Commit#1") && !called("(*GlobalTransactionManager).Commit#2") && !called("(*GlobalTransactionManager).Rollback#1") && ghost.rollback_sends == 0
 //@   ensures decision-rollback: role == Launcher && !isSuccess ==> called("(*GlobalTransactionManager).Rollback#1") && !called("(*GlobalTransactionManager).Rollback#2") && !called("(*GlobalTransactionManager).Commit#1") && ghost.commit_sends == 0
 //@   ensures participant: role != Launcher ==> !called("(*GlobalTransactionManager).Commit#1") && !called("(*GlobalTransactionManager).Rollback#1") && ghost.commit_sends == 0 && ghost.rollback_sends == 0
+//@   ensures participant-is-silent: role != Launcher ==> ghost.commit_sends == 0 && ghost.rollback_sends == 0
 //@   ensures participant-result: role == Participant ==> result == nil
 //@   ensures returns-their-error: (called("(*GlobalTransactionManager).Commit#1") ==> result == callres("(*GlobalTransactionManager).Commit#1", 0)) && (called("(*GlobalTransactionManager).Rollback#1") ==> result == callres("(*GlobalTransactionManager).Rollback#1", 0))
 //@   ensures truthful-nil: role == Launcher && result == nil ==> (isSuccess && ghost.commit_acked) || (!isSuccess && ghost.rollback_acked)
@@ -129,6 +130,7 @@ package tm
 //@   ensures requiresnew-new: pg == RequiresNew ==> ghost.begin_sends == old(ghost.begin_sends) + 1 && (result == nil ==> v.TxRole == Launcher && v.TxName == gc.Name && v.Xid == ghost.begin_xid)
 //@   ensures supports-none: pg == Supports && !present ==> result == nil && ghost.begin_sends == old(ghost.begin_sends) && v.Xid == ""
 //@   ensures notsupported-none: pg == NotSupported ==> result == nil && ghost.begin_sends == old(ghost.begin_sends) && v.Xid == ""
+//@   ensures suspended-xid-is-not-visible: pg == NotSupported && present ==> v.Xid == "" && v.XidCopy == ""
 //@   ensures never-none: pg == Never && !present ==> result == nil && ghost.begin_sends == old(ghost.begin_sends) && v.Xid == ""
 //@   ensures never-error: pg == Never && present ==> result != nil && ghost.begin_sends == old(ghost.begin_sends)
 //@   ensures mandatory-error: pg == Mandatory && !present ==> result != nil && ghost.begin_sends == old(ghost.begin_sends)
@@ -152,9 +154,10 @@ package tm
 //@   let xid0 := ite(in_gtx, cv0.(*ContextVariable).Xid, "")
 //@   let role0 := ite(in_gtx, cv0.(*ContextVariable).TxRole, 0)
 //@   let name0 := ite(in_gtx, cv0.(*ContextVariable).TxName, "")
-//@   ensures C07/frame: in_gtx ==> cv0.(*ContextVariable).Xid == xid0 && cv0.(*ContextVariable).TxRole == role0 && cv0.(*ContextVariable).TxName == name0
-//@   ensures_on_panic C07/frame-on-panic: in_gtx ==> cv0.(*ContextVariable).Xid == xid0 && cv0.(*ContextVariable).TxRole == role0 && cv0.(*ContextVariable).TxName == name0
+//@   ensures frame: in_gtx ==> cv0.(*ContextVariable).Xid == xid0 && cv0.(*ContextVariable).TxRole == role0 && cv0.(*ContextVariable).TxName == name0
+//@   ensures_on_panic frame-on-panic: in_gtx ==> cv0.(*ContextVariable).Xid == xid0 && cv0.(*ContextVariable).TxRole == role0 && cv0.(*ContextVariable).TxName == name0
+//@   ensures C07/an-arriving-xid-is-joined-never-ended: in_gtx && gc != nil && gc.Name != "" && (gc.Propagation == Required || gc.Propagation == Supports || gc.Propagation == Mandatory) ==> ghost.begin_sends == 0 && ghost.commit_sends == 0 && ghost.rollback_sends == 0
 //@   let in_scope := isT(cv0, *ContextVariable) && cv0.(*ContextVariable) != nil && cv0.(*ContextVariable).Xid == ""
 //@   let role1 := ite(in_scope, cv0.(*ContextVariable).TxRole, 0)
 //@   let name1 := ite(in_scope, cv0.(*ContextVariable).TxName, "")
-//@   ensures C07/frame-of-a-scope-without-transaction: in_scope ==> cv0.(*ContextVariable).Xid == "" && cv0.(*ContextVariable).TxRole == role1 && cv0.(*ContextVariable).TxName == name1
+//@   ensures frame-of-a-scope-without-transaction: in_scope ==> cv0.(*ContextVariable).Xid == "" && cv0.(*ContextVariable).TxRole == role1 && cv0.(*ContextVariable).TxName == name1
